@@ -338,22 +338,27 @@ func (s *Server) listAndFilterObjects(ctx context.Context, r *http.Request, buck
 	collectedPrefixes := []string{}
 	seenPrefixes := map[string]struct{}{}
 	startAfter := opts.StartAfter
-	var nextMarker *string
 	baseRequest, _ := makeAuthorizationRequest(ctx, authorization.OperationListObjects, ptrutils.ToPtr(bucketName.String()), nil, r)
 
 	for {
+		// Keys and common prefixes count together towards max-keys. Only the
+		// entries that still fit are requested, so every storage page is taken
+		// whole and the listing continues after its last entry.
+		collectedCount := int32(len(collectedObjects) + len(collectedPrefixes))
 		result, err := s.storage.ListObjects(ctx, bucketName, storage.ListObjectsOptions{
 			Prefix:     opts.Prefix,
 			Delimiter:  opts.Delimiter,
 			StartAfter: startAfter,
-			MaxKeys:    maxKeys,
+			MaxKeys:    maxKeys - collectedCount,
 		})
 		if err != nil {
 			return nil, nil, err
 		}
 
-		lastScanned := startAfter
-		for objectIndex, object := range result.Objects {
+		// The last entry of the page is the greater of its last key and its
+		// last common prefix.
+		var lastScanned *string
+		for _, object := range result.Objects {
 			key := object.Key.String()
 			lastScanned = &key
 			allowed, err := s.authorizeListObject(ctx, baseRequest, key, object.Tags)
@@ -364,17 +369,11 @@ func (s *Server) listAndFilterObjects(ctx context.Context, r *http.Request, buck
 				continue
 			}
 			collectedObjects = append(collectedObjects, object)
-			if int32(len(collectedObjects)) >= maxKeys {
-				hasMore := objectIndex < len(result.Objects)-1 || len(result.CommonPrefixes) > 0 || result.IsTruncated
-				if hasMore {
-					nextMarker = lastScanned
-					return &storage.ListBucketResult{Objects: collectedObjects, CommonPrefixes: collectedPrefixes, IsTruncated: true}, nextMarker, nil
-				}
-				return &storage.ListBucketResult{Objects: collectedObjects, CommonPrefixes: collectedPrefixes, IsTruncated: false}, nil, nil
-			}
 		}
 		for _, commonPrefix := range result.CommonPrefixes {
-			lastScanned = &commonPrefix
+			if lastScanned == nil || commonPrefix > *lastScanned {
+				lastScanned = &commonPrefix
+			}
 			allowed, err := s.authorizeListObject(ctx, baseRequest, commonPrefix, nil)
 			if err != nil {
 				return nil, nil, err
@@ -389,17 +388,16 @@ func (s *Server) listAndFilterObjects(ctx context.Context, r *http.Request, buck
 			collectedPrefixes = append(collectedPrefixes, commonPrefix)
 		}
 
-		if !result.IsTruncated {
+		if !result.IsTruncated || lastScanned == nil {
 			return &storage.ListBucketResult{Objects: collectedObjects, CommonPrefixes: collectedPrefixes, IsTruncated: false}, nil, nil
 		}
-		if lastScanned == nil {
-			return &storage.ListBucketResult{Objects: collectedObjects, CommonPrefixes: collectedPrefixes, IsTruncated: false}, nil, nil
+		if int32(len(collectedObjects)+len(collectedPrefixes)) >= maxKeys {
+			return &storage.ListBucketResult{Objects: collectedObjects, CommonPrefixes: collectedPrefixes, IsTruncated: true}, lastScanned, nil
 		}
 		if startAfter != nil && *startAfter == *lastScanned {
 			return &storage.ListBucketResult{Objects: collectedObjects, CommonPrefixes: collectedPrefixes, IsTruncated: false}, nil, nil
 		}
-		startAfter = ptrutils.ToPtr(*lastScanned)
-		nextMarker = startAfter
+		startAfter = lastScanned
 	}
 }
 
